@@ -83,6 +83,12 @@ class CFG:
         return ins
 
     def _stmt(self, st, ins):
+        if isinstance(st, ast.Match):
+            from .astutil import desugar_match
+
+            stmts = desugar_match(st)
+            if stmts is not None:
+                return self._seq(stmts, ins)
         if isinstance(st, ast.If):
             t = self._new("test", st)
             self._connect(ins, t)
